@@ -136,6 +136,7 @@ pub fn run(path: &str, out_dir: &str, n: i64) -> Result<Value, String> {
             }
             // ---- C05 / C31: every cell against the spec state
             let mut step_mism: Vec<(i64, &str, String, String)> = vec![];
+            let mut own_mism: Vec<(i64, i64, String)> = vec![];
             for &d in &cells {
                 rep.n_checks += 1;
                 let want = &st["shown"][(d - 1) as usize];
@@ -159,7 +160,7 @@ pub fn run(path: &str, out_dir: &str, n: i64) -> Result<Value, String> {
                 if want["e"] != "NOV" {
                     let go = owner(&um, n, d);
                     if go != wo {
-                        rep.mismatch("C31", if wo == 0 { "stale-or-extra-spill-cell" } else { "missing-spill-cell" }, &kind, json!({"program": program, "cell": d}), format!("cell {d}: spill owner row {go}, the specification demands {wo}"));
+                        own_mism.push((d, wo, format!("cell {d}: spill owner row {go}, the specification demands {wo}")));
                         ok_so_far = false;
                     }
                 }
@@ -168,15 +169,19 @@ pub fn run(path: &str, out_dir: &str, n: i64) -> Result<Value, String> {
             // differ as a consequence and are not reported separately
             // values that are wrong only until the next evaluation: a formula evaluated before the spill it reads
             // existed (the spill cell is created later in the same pass); one class, whatever the edit was
-            if !step_mism.is_empty() && !step_mism.iter().any(|m| content.get(&m.0).map(|x| x["k"] == "count").unwrap_or(false)) {
+            if (!step_mism.is_empty() || !own_mism.is_empty()) && !step_mism.iter().any(|m| content.get(&m.0).map(|x| x["k"] == "count").unwrap_or(false)) {
                 um.evaluate();
-                let healed = step_mism.iter().all(|m| matches(&st["shown"][(m.0 - 1) as usize], &shown(&um, n, m.0)) != Some(false));
+                let healed = step_mism.iter().all(|m| matches(&st["shown"][(m.0 - 1) as usize], &shown(&um, n, m.0)) != Some(false))
+                    && own_mism.iter().all(|m| owner(&um, n, m.0) == m.1);
                 let reads_spill = st["owner"].as_array().map(|a| a.iter().any(|o| o.as_i64().unwrap_or(0) != 0)).unwrap_or(false);
                 if healed && reads_spill {
-                    let m = &step_mism[0];
-                    rep.mismatch("C07", "stale-until-next-evaluation", "formula-reads-new-spill", json!({"program": program, "cell": m.0}), format!("{}; right after one more evaluate()", m.3));
+                    let (cell, text) = step_mism.first().map(|m| (m.0, m.3.clone())).or_else(|| own_mism.first().map(|m| (m.0, m.2.clone()))).unwrap_or((0, String::new()));
+                    rep.mismatch("C07", "stale-until-next-evaluation", "formula-reads-new-spill", json!({"program": program, "cell": cell}), format!("{text}; right after one more evaluate()"));
                     break;
                 }
+            }
+            for m in &own_mism {
+                rep.mismatch("C31", if m.1 == 0 { "stale-or-extra-spill-cell" } else { "missing-spill-cell" }, &kind, json!({"program": program, "cell": m.0}), m.2.clone());
             }
             if let Some(root) = step_mism.iter().find(|m| content.get(&m.0).map(|x| x["k"] == "count").unwrap_or(false)) {
                 rep.mismatch("C05", &root.2, "count-on-cycle", json!({"program": program, "cell": root.0}), root.3.clone());
